@@ -176,6 +176,8 @@ class FBuilder(Builder):
 
     def setshape(self, t, shape):
         """t.shape = shape  (NumPy: in place on the array object; refuses when it would need a copy)"""
+        if any(o is not t and o.vals is t.vals for o in self.tensors.values()):
+            return False     # an identity "view" (NumPy returned the very same array object): re-shaping it would re-shape its twin's mirror too
         try:
             probe = t.vals.view()
             probe.shape = tuple(shape)
